@@ -733,12 +733,17 @@ class EncodingParser(object):
         # We have a valid meta element we want to search for attributes
         hasPragma = False
         pendingEncoding = None
+        attributeNames = set()
         while True:
             # Try to find the next attribute after the current position
             attr = self.getAttribute()
             if attr is None:
                 return True
+            elif attr[0] in attributeNames:
+                # only the first attribute of a name counts
+                continue
             else:
+                attributeNames.add(attr[0])
                 if attr[0] == b"http-equiv":
                     hasPragma = attr[1] == b"content-type"
                     if hasPragma and pendingEncoding is not None:
